@@ -55,6 +55,10 @@ def check(cx):
     rule_kick_relative(cx, r7)
     depends(cx, r7, 'C15', ('R15.2', 'R15.3'), 'NICK re-keys every membership and is announced',
             only=r'rekey\|(member-entries|Channel)|announcement')
+    # the announcements are the relayed original messages: what they name must be what the handler applied (the roster a member
+    # reconstructs from them is the one NAMES shows)
+    depends(cx, r7, 'C13', ('R13.14',), 'the nick / channel / victim a relayed message names is the one the handler applied',
+            only=r'\|(NICK|JOIN|PART|KICK)\.')
     depends(cx, r7, 'C03', ('R3.3', 'R3.6'), 'a registered connection stays marked as such, so its disconnect is cleaned up',
             only=r'writes-authenticated|authenticate-reentry')
     depends(cx, r7, 'C02', ('R2.1',), 'only the teardown takes a user out of the registry', only=r'registry-remove|calls-remove_user')
